@@ -68,6 +68,11 @@ def r1_conversion(ctx, chk, rule="C17.1"):
                           "(likewise 0.57, 0.58) and collides with the neighbouring parameter set" % tr, expected="str(round(prob*100))", found=show(r),
                           construct="prob_to_str truncation")
             return
+        if x[0] == "call" and x[1] == "math.ceil" and x[2] and x[2][0] in prod:
+            chk.violation(rule, where, "prob_to_str converts prob*100 with math.ceil, which rounds the floating-point product UP: 0.07*100 = 7.000000000000001 is written as 8 "
+                          "(likewise 0.14, 0.28, 0.55, 0.56) and collides with the neighbouring parameter set", expected="str(round(prob*100))", found=show(r),
+                          construct="prob_to_str truncation")
+            return
     if r[0] == "fstr" or (r[0] == "binop" and r[1] == "Mod"):
         parts = r[1] if r[0] == "fstr" else ()
         if r[0] == "fstr" and len(parts) == 1 and parts[0][0] == "fmt" and parts[0][1] in prod and parts[0][3] in ("'.0f'", ".0f") and parts[0][2] == -1:
